@@ -31,7 +31,7 @@ def run(ctx):
         for claimed in (2**16, 2**31, 2**32, 2**40, 2**62, 2**63, 2**64 - 1):
             inputs.append(b'\x82\x7f' + claimed.to_bytes(8, 'big') + b'abc')
             inputs.append(b'\x82\xff' + claimed.to_bytes(8, 'big') + b'\x01\x02\x03\x04abc')
-        for _ in range(3000 if thorough else 300):
+        for _ in range(3000 if thorough else 300 * ctx.scale):
             inputs.append(bytes(rng.getrandbits(8) for _ in range(rng.choice([0, 1, 2, 3, 6, 14, 50]))))
         lines = []
         for d in inputs:
